@@ -17,6 +17,7 @@ class EpCase:
         self.want = list(want)
         self.impl = None                  # runner result
         self.model = {}                   # eval index -> parsed outcome
+        self.model_acs = {}               # eval index -> parsed outcome of the DHW fraction
 
     def job(self):
         j = {"id": self.cid, "comps": self.comps_spec, "factors": self.factors_spec, "user": self.user,
@@ -73,7 +74,9 @@ def impl_inputs_ok(c):
             and core.finite_components(r["comps"]["ok"]))
 
 
-def model_items(c, with_comment=False):
+def model_items(c, with_comment=None):
+    if with_comment is None:
+        with_comment = "acs" in c.want
     """Gallina definitions + one expression per evaluation"""
     r = c.impl
     comps = r["comps"]["ok"]
@@ -88,6 +91,9 @@ def model_items(c, with_comment=False):
         expr = "outcome_of (energy_performance %s_c %s_f %s %s %s) dump_ep" % (
             name, name, kq, aq, "true" if lm else "false")
         items.append(("%s.%d" % (c.cid, i), defs if i == 0 else "", expr))
+        if "acs" in c.want:
+            items.append(("%s.acs%d" % (c.cid, i), "", "acs_outcome (energy_performance %s_c %s_f %s %s %s)" % (
+                name, name, kq, aq, "true" if lm else "false")))
     return items
 
 
@@ -102,6 +108,9 @@ def run_model(cases, prop):
             t = out.get("%s.%d" % (c.cid, i))
             if t is not None:
                 c.model[i] = core.parse_outcome(t)
+            t = out.get("%s.acs%d" % (c.cid, i))
+            if t is not None:
+                c.model_acs[i] = core.parse_outcome(t)
     return errors
 
 
